@@ -75,14 +75,16 @@ Lemma later_clock_now t1 t2 s s1 s12 s2 :
      (forall k l12 l2, slook (i_scopes i12) k = Some l12 -> slook (i_scopes i2) k = Some l2 ->
                        forall x, In x l12 <-> In x l2)) /\
   (forall a, slook (actions s12) a = slook (actions s2) a) /\
+  (forall f l12 l2, slook (by_flow s12) f = Some l12 -> slook (by_flow s2) f = Some l2 -> forall x, In x l12 <-> In x l2) /\
   s_rest s12 = s_rest s2.
 Proof.
-  intros Ht (Hn & Hc & _) R1 R12 R2. unfold cleanup_now in *. split; [|split; [|split]].
+  intros Ht (Hn & Hc & _) R1 R12 R2. unfold cleanup_now in *. split; [|split; [|split; [|split]]].
   - intro u. exact (later_same_domain cfg_now t1 t2 s s1 s12 s2 eq_refl Ht Hn R1 R12 R2 u).
   - intros u i12 i2 H1 H2. split.
     + exact (later_same_instance cfg_now t1 t2 s s1 s12 s2 Hn R1 R12 R2 u i12 i2 H1 H2).
     + exact (later_same_lists cfg_now t1 t2 s s1 s12 s2 eq_refl Ht Hn R1 R12 R2 u i12 i2 eq_refl eq_refl Hc H1 H2).
   - intro a. exact (later_same_actions cfg_now t1 t2 s s1 s12 s2 eq_refl Ht Hn R1 R12 R2 a).
+  - exact (later_same_by_flow cfg_now t1 t2 s s1 s12 s2 eq_refl Ht Hn R1 R12 R2 eq_refl eq_refl Hc).
   - exact (later_same_rest cfg_now t1 t2 s s1 s12 s2 Hn R1 R12 R2).
 Qed.
 
